@@ -470,9 +470,25 @@ def _sp_json_loads(f, a, k):
     return f(*a, **k)
 
 
+def _concretize_ints(v):
+    """symbolic ints inside a JSON value are enumerated (harnesses keep their ranges small);
+    symbolic text is not modelled"""
+    if isinstance(v, SInt):
+        if _wide_range(v):
+            raise Unmodelled('json.dumps of an unbounded symbolic integer')
+        return v.concretize()
+    if isinstance(v, (SSeq, SBool)):
+        raise Unmodelled('json.dumps of a value containing symbolic text')
+    if isinstance(v, dict):
+        return {kk: _concretize_ints(x) for kk, x in v.items()}
+    if isinstance(v, (list, tuple)):
+        return [_concretize_ints(x) for x in v]
+    return v
+
+
 def _sp_json_dumps(f, a, k):
     if a and _contains_sym(a[0]):
-        raise Unmodelled('json.dumps of a value containing symbolic parts')
+        return f(_concretize_ints(a[0]), *a[1:], **k)
     if a and isinstance(a[0], dict):
         return f(_plain(a[0]), *a[1:], **k)
     return f(*a, **k)
